@@ -483,25 +483,21 @@ pub fn long_string(utf8_only: bool, with_8bit: bool) -> BoxedStrategy<Vec<u8>> {
         "[ -~]{0,3}",
     )
         .prop_map(move |(intro, len, fill, extras, t, tail)| {
-            let mut payload = vec![fill; len];
+            // cells, so that replacements never cut a multi-byte character
+            let mut cells: Vec<Vec<u8>> = vec![vec![fill]; len];
             for (frac, kind) in extras {
                 let pos = (frac as usize * len) >> 16;
-                match kind {
-                    0 => payload[pos] = b';',
-                    1 => payload[pos] = b'x',
-                    2 => {
-                        // a multi-byte character
-                        let c = "\u{e9}".as_bytes();
-                        if pos + c.len() <= payload.len() {
-                            payload[pos..pos + c.len()].copy_from_slice(c);
-                        }
-                    }
+                cells[pos] = match kind {
+                    0 => vec![b';'],
+                    1 => vec![b'x'],
+                    2 => "\u{e9}".as_bytes().to_vec(),
                     // an 8-bit ST in the middle: ends DCS/SOS/PM/APC, what follows is text
-                    3 if !utf8_only && with_8bit => payload[pos] = 0x9c,
-                    3 if pos + 2 <= payload.len() => payload[pos..pos + 2].copy_from_slice("\u{9c}".as_bytes()),
-                    _ => payload[pos] = b' ',
-                }
+                    3 if !utf8_only && with_8bit => vec![0x9c],
+                    3 => "\u{9c}".as_bytes().to_vec(),
+                    _ => vec![b' '],
+                };
             }
+            let payload: Vec<u8> = cells.concat();
             let mut v = intro.to_vec();
             v.extend(payload);
             push_term(&mut v, t);
@@ -847,4 +843,29 @@ pub fn sgr_stream(cfg: SgrStreamCfg) -> BoxedStrategy<(Vec<Item>, u64)> {
 
 pub fn is_other(item: &Item) -> bool {
     item.class().starts_with("other-")
+}
+
+#[cfg(test)]
+mod tests {
+    use super::*;
+    use crate::drive::sample_values;
+
+    #[test]
+    fn utf8_streams_are_valid_utf8() {
+        for seed in 0..8u64 {
+            for items in sample_values(seed, 20_000, &stream(StreamCfg::UTF8)) {
+                let b = render(&items);
+                assert!(std::str::from_utf8(&b).is_ok(), "UTF8 cfg produced invalid UTF-8: {:?}", crate::rt::esc(&b));
+            }
+            for items in sample_values(seed, 5_000, &stream(StreamCfg { max_items: 30, ..StreamCfg::SEVEN_BIT })) {
+                let b = render(&items);
+                assert!(std::str::from_utf8(&b).is_ok());
+            }
+            let cfg = SgrStreamCfg { max_items: 20, others: true, c0: true, xml_text: true, single_group: false };
+            for (items, _) in sample_values(seed, 10_000, &sgr_stream(cfg)) {
+                let b = render(&items);
+                assert!(std::str::from_utf8(&b).is_ok(), "sgr_stream produced invalid UTF-8: {:?}", crate::rt::esc(&b));
+            }
+        }
+    }
 }
